@@ -182,6 +182,24 @@ Theorem C02_weights_unity_contracted :
 Proof. exact weights_unity_contracted. Qed.
 Print Assumptions C02_weights_unity_contracted.
 
+(** the executable evaluation the harness compares with the implementation bit for bit (Model/FExpr.v: [rndQ], [fl_evalQ], run
+    extracted) is Flocq's rounding, the IEEE evaluation, and admissible with or without contraction *)
+From Inovesa Require Import Proofs.FlEvalQP.
+Theorem C02_rndQ_is_IEEE_RNE :
+  forall (p : prec) (q : Q), Q2R (rndQ p q) = RNp p (Q2R q).
+Proof. exact rndQ_correct. Qed.
+Print Assumptions C02_rndQ_is_IEEE_RNE.
+
+Theorem C02_executable_evaluation_is_ieee :
+  forall (e : fexpr) (f : Q), Q2R (fl_evalQ false e f) = fl_eval e (Q2R f).
+Proof. exact fl_evalQ_ieee. Qed.
+Print Assumptions C02_executable_evaluation_is_ieee.
+
+Theorem C02_executable_evaluation_admissible :
+  forall (c : bool) (e : fexpr) (f : Q), feval (Q2R f) e (Q2R (fl_evalQ c e f)).
+Proof. exact fl_evalQ_feval. Qed.
+Print Assumptions C02_executable_evaluation_admissible.
+
 (** the constants *)
 Example C02_rounding_constants :
   map Bsum [1; 2; 3; 4]%Z = [0; 9 # 8; 17 # 4; 29 # 4]%Q /\ map Bone [1; 2; 3; 4]%Z = [0; 9 # 8; 25 # 8; 25 # 4]%Q /\
